@@ -20,6 +20,8 @@ register("recheck", "feed", "hashcheck")
 register("rebuild", "map_pieces")
 register("edit", "edit", "magnet", "quote", "unquote")
 register("creators", "create", "flt", "wf", "path", "descend")
+register("rebuildrun", "rebuildrun")
+register("recheckinit", "recheck", "refmeta")
 
 
 def binary(area):
